@@ -302,10 +302,13 @@ class ResourceMap:
         Internal implementation is recursive, hence extremely deep
         nested resource maps are not ideal.
         """
-        # Set valid identifiers as slots
+        # Set valid identifiers as slots. Private-style names (two
+        # leading underscores, no trailing ones) are left to the dict,
+        # as slots declared in the class body below would be mangled.
         slots_resources = tuple(filter(
-            lambda x: x.isidentifier(), chain(self.handles.keys(),
-                                              self.maps.keys())))
+            lambda x: (x.isidentifier()
+                       and not (x.startswith('__') and not x.endswith('__'))),
+            chain(self.handles.keys(), self.maps.keys())))
 
         # Don't add a dict if all the resources can be encoded into
         # slots
